@@ -457,6 +457,18 @@ int64_t cmb_process_wait_process(struct cmb_process *awaited)
         const int64_t sig = (int64_t)cmi_coroutine_yield(NULL);
 
         /* Possibly much later */
+        if (sig != CMB_PROCESS_SUCCESS) {
+            /*
+             * Woken by something else, e.g. a timer. If we are still
+             * registered as waiting, withdraw that both here and there.
+             */
+            if (cmi_process_remove_awaitable(me,
+                                             CMI_PROCESS_AWAITABLE_PROCESS,
+                                             awaited)) {
+                (void)cmi_process_remove_waiter(awaited, me);
+            }
+        }
+
         return sig;
     }
 }
